@@ -1247,7 +1247,7 @@ def impl_sections(res: Dict[str, Any]) -> Dict[str, str]:
         page = pg["page"]
         for prod, href, _t in pg["links"]:
             item = page + ">" + canon_href(href)
-            if prod in ("table", "sidebar", "modindex", "classindex", "nameindex", "undoc-entry"):
+            if prod in ("table", "sidebar", "modindex", "classindex", "nameindex", "undoc"):
                 continue            # compared through their entries (with the marker)
             if prod == "xref-header":
                 prod = "xref"
@@ -1263,7 +1263,7 @@ def impl_sections(res: Dict[str, Any]) -> Dict[str, str]:
                 S["detail"].append(page + ">" + enc(ref) + ">" + m)
                 for nm in extra.split("\t"):
                     S["anchors"].append(page + ">" + enc(nm))
-            elif kind in ("sidebar", "sidebar-inherited", "modindex", "classindex", "nameindex"):
+            elif kind in ("sidebar", "sidebar-inherited", "modindex", "classindex", "nameindex", "undoc"):
                 S[kind].append(page + ">" + canon_href(ref) + ">" + m)
             elif kind == "classanchor":
                 S["classanchors"].append(enc(ref))
